@@ -10,15 +10,20 @@ CBC = ["x4_sse", "x8_avx", "x8_vaes_avx512", "pub"]
 KEYEXP = ["sse", "avx", "pub"]
 
 
-def run_one(drv, what, fam, seed, nops, maxlen, only=None):
+def run_one(drv, what, fam, seed, nops, maxlen, only=None, env=None):
     d = vlib.scratch()
     tag = "%s_%s_%d" % (what, fam, seed)
     ops = os.path.join(d, "aops_" + tag)
     res = os.path.join(d, "ares_" + tag)
-    r = subprocess.run([drv, what, fam, str(seed), str(nops), str(maxlen), ops, res], capture_output=True, text=True)
+    e = dict(os.environ)
+    e.update(env or {})
+    tag += "_" + "_".join("%s%s" % kv for kv in sorted((env or {}).items()))
+    ops = os.path.join(d, "aops_" + tag)
+    res = os.path.join(d, "ares_" + tag)
+    r = subprocess.run([drv, what, fam, str(seed), str(nops), str(maxlen), ops, res], capture_output=True, text=True, env=e)
     out = {"what": what, "fam": fam, "args": [what, fam, str(seed), str(nops), str(maxlen)], "exit": r.returncode}
-    if r.returncode not in (0, 3):
-        out.update({"monitors": ["CRASH exit=%d %s" % (r.returncode, r.stderr[-200:])], "diffs": [], "ops": 0, "hist": {}, "crash": True})
+    if r.returncode not in (0, 3) or not os.path.exists(res):
+        out.update({"monitors": ["CRASH exit=%d %s" % (r.returncode, r.stderr[-200:])], "diffs": [], "ops": 0, "hist": {}, "crash": True, "impl_lines": []})
         return out
     with open(ops) as fh:
         m = subprocess.run([vlib.MODEL_BIN], stdin=fh, capture_output=True, text=True)
@@ -40,8 +45,8 @@ def run_one(drv, what, fam, seed, nops, maxlen, only=None):
         hist[k] = hist.get(k, 0) + 1
         if a != b and len(diffs) < 5:
             diffs.append({"line": i + 1, "op": op, "impl": a[:260], "model": b[:260]})
-    out.update({"monitors": monitors, "diffs": diffs, "ops": len(il), "hist": hist,
-                "sample": [ol[i] + " -> " + il[i][:100] for i in range(1, min(4, len(il)))]})
+    out.update({"monitors": monitors, "diffs": diffs, "ops": len(il), "hist": hist, "impl_lines": il,
+                "sample": [ol[i] + " -> " + il[i][:100] for i in range(1, min(4, len(il), len(ol)))]})
     for p in (ops, res):
         try:
             os.remove(p)
@@ -50,6 +55,9 @@ def run_one(drv, what, fam, seed, nops, maxlen, only=None):
     return out
 
 
-def sweep(drv, jobs):
+def sweep(drv, jobs, env=None):
     with ThreadPoolExecutor(max_workers=16) as ex:
-        return list(ex.map(lambda j: run_one(drv, *j), jobs))
+        return list(ex.map(lambda j: run_one(drv, *j, env=env), jobs))
+
+
+ALL = [("gcm", f) for f in GCM] + [("xts", f) for f in XTS] + [("cbc", f) for f in CBC] + [("keyexp", f) for f in KEYEXP]
